@@ -30,6 +30,7 @@ import Proofs.RoundTripMarks
 import Proofs.RoundTripForest
 import Proofs.RoundTripSerM
 import Proofs.RoundTripFull
+import Proofs.RoundTripAll
 namespace PM.C19
 open PM.Dom
 
@@ -862,35 +863,24 @@ end Examples
   context-free rule that maps back to the same type with the same attributes, and every text is whitespace-normal for the
   whitespace mode in force (`textOk`, `lastOk`).
 
-  The full statement (NOT proved here; the tie checks it relationally on every generated document — `rtOk` ⇒ the real
-  round trip is the identity, and the model's round trip equals the real one exactly):
+  **`roundtrip`** (proved): `rtOk R D doc = true → roundTrip R D doc = .ok doc` — export then import is the identity, for
+  every schema given by its tables, `toDOM` functions `D` and parse rules `R` in restricted form, and every document
+  satisfying the decidable hypothesis.  The tie checks both sides of it on every generated document: the model's round trip
+  equals the real one exactly (HTML, oracle-filled DOM, parsed document), and `rtOk` ⇒ the real round trip is the identity.
 
-      theorem roundtrip (R : RoundTrip.RParser) (D : RoundTrip.ToDom) (doc : Node)
-          (h : RoundTrip.rtOk R D doc = true) : RoundTrip.roundTrip R D doc = .ok doc
-
-  Proved: **`roundtrip_markfree_partial`** — the full statement for documents without marks (`noMarks`): text, leaves,
-  nested blocks, lists, code blocks, attributes; in two halves, `roundtrip_export_canonical_partial` (the serializer's
-  output converts to the canonical DOM of the document) and `roundtrip_import_canonical_partial` (the walk over the
-  canonical DOM rebuilds the document), the latter by induction over the document from the steps
-  `roundtrip_{text,insert,enter,open,close,finish}_partial` below (Proofs/RoundTripDoc.lean: `walk_node` / `walk_kids`,
-  with `match_tag` = the first candidate, leaves, the transparent inner element of `["pre", ["code", 0]]` with and
-  without a mark rule for it).
-  For marks the steps of the bookkeeping are proved: an emitted mark element opens — its mark is appended to the pending
-  marks of the open context (`roundtrip_marks_open_partial`); a node inserted inside gets exactly the marks of the
-  enclosing mark elements, which become active in order (`roundtrip_marks_insert_partial`); the element closes — its mark
-  is the last active one and is taken off (`roundtrip_marks_close_partial`); and the three chained for one emitted mark
-  element of the walk (`roundtrip_marks_element_partial`).  The invariant is `MarkSt`: active marks ++
-  pending marks of the open context = the marks of the enclosing emitted mark elements, outermost first.
-  For a textblock with marked children both halves are proved separately: `roundtrip_marks_export_partial` — what
-  `serialize_fragment` emits for a list of inline nodes is the rendering of the forest `build kids [] []` (the replay of the
-  active-mark stack: keep the common prefix open, close the rest, open the new marks), whose leaves are the nodes in
-  order, each below exactly its marks, every mark element containing a node; `roundtrip_marks_import_partial` — the walk
-  over the DOM of such a forest inside an open textblock context rebuilds the nodes *with their marks* (chaining the mark
-  steps above; `follows` / `Chain` come from validity: `checkNode` ⇒ canonical mark sets ⇒ `CanonP`).
-  Missing for the full statement: `toDomList (forestHtml F) = forestDom F` (adjacent text leaves at one level would have
-  equal marks, which normalised content excludes — so no text merging), and plugging the forest branch into the document
-  induction (`walk_node` / `ser_dom_node`, elem case with marked flat children: `addDom_node` needs `Stable` instead of
-  `Rel` for the child context, the canonical DOM needs the forest branch). -/
+  How it is put together (the `…_partial` theorems below are its lemmas, kept under their names):
+  * mark-free documents: `roundtrip_markfree_partial` = `roundtrip_export_canonical_partial` (the serializer's output
+    converts to the canonical DOM) + `roundtrip_import_canonical_partial` (the walk over the canonical DOM rebuilds the
+    document), by induction over the document from the steps `roundtrip_{text,insert,enter,open,close,finish}_partial`;
+  * marks: `roundtrip_marks_export_partial` (what `serialize_fragment` emits for the children of a textblock is the forest
+    `build kids [] []`: keep the common prefix of marks open, close the rest, open the new ones) and
+    `roundtrip_marks_import_partial` (the walk over that forest rebuilds the nodes with their marks), from the steps
+    `roundtrip_marks_{open,insert,close,element}_partial` with the invariant `MarkSt` (active ++ pending marks of the open
+    context = the marks of the enclosing emitted mark elements); `follows` / `Chain` come from validity (`checkNode` ⇒
+    canonical mark sets ⇒ `CanonP`);
+  * Proofs/RoundTripAll.lean joins them: `forest_toDom` (the emitted forest converts to the forest DOM — adjacent texts at
+    one level would carry equal marks, so nothing is merged), the document induction with the forest branch
+    (`walk_nodeM` / `walk_kidsM`, `ser_dom_nodeM` / `ser_dom_listM`), `roundtrip_core`. -/
 
 open PM PM.RoundTrip PM.FromDom in
 /-- **text survives** (stage i of the round trip): inside an open context `cx` (type `t`, automaton state `q`, nothing
@@ -1082,6 +1072,16 @@ theorem roundtrip_marks_import_partial (R : RParser) (D : ToDom) (F : List MTree
     (fun m hm => by cases hm) hok hko hlh hrun hprev
   exact ⟨w', cx', h1, h2, by simpa using h3, h4⟩
 
+open PM PM.RoundTrip in
+/-- **export then import is the identity** (C19, second half): for a schema given by its tables, `toDOM` functions `D` and
+    parse rules `R` in restricted form, every document that satisfies the decidable hypothesis `rtOk` — valid, normalised,
+    every node / mark emitted as an element that its first matching rule reads back with the same type and attributes,
+    text whitespace-normal for the whitespace mode in force, marked nodes only among the leaf children of a textblock —
+    is serialised to HTML whose parse is the document again: text, marks (spaces between differently marked words
+    survive), leaves, nested blocks, lists, code blocks with their newlines -/
+theorem roundtrip (R : RParser) (D : ToDom) (doc : Node) (h : rtOk R D doc = true) : roundTrip R D doc = .ok doc :=
+  roundtrip_core R D doc h
+
 namespace RoundTripExamples
 open PM.RoundTrip PM.FromDom
 -- labelled tests of the whitespace rule (`textOk`): "foo", "a b" are normal; a leading space at the start of a textblock,
@@ -1166,6 +1166,19 @@ example : build [.text [97, 32] [⟨0, []⟩], .text [98] [⟨1, []⟩]] [] [] =
 example : build [.text [97] [⟨0, []⟩], .text [98] [⟨0, []⟩, ⟨1, []⟩], .text [99] [⟨1, []⟩]] [] [] =
     [.wrap ⟨0, []⟩ [.leaf (.text [97] [⟨0, []⟩]), .wrap ⟨1, []⟩ [.leaf (.text [98] [⟨0, []⟩, ⟨1, []⟩])]],
      .wrap ⟨1, []⟩ [.leaf (.text [99] [⟨1, []⟩])]] := by rfl
+/-- doc(p(em("a "), strong("b"), " ", em+strong("c d")), pre("x\n  y\n")): differently marked words separated by spaces —
+    one space inside the first mark, one unmarked between two marked words — and a code block with newlines -/
+private def docMarks : Node :=
+  .elem 0 [] [] [.elem 1 [] [] [.text [97, 32] [⟨0, []⟩], .text [98] [⟨1, []⟩], .text [32] [],
+                                 .text [99, 32, 100] [⟨0, []⟩, ⟨1, []⟩]],
+                 .elem 2 [] [] [.text [120, 10, 32, 32, 121, 10] []]]
+-- **spaces between differently marked words and the newlines of a code block survive the round trip** (through the theorem,
+-- its hypothesis decided by the kernel)
+example : roundTrip RB DB docMarks = .ok docMarks := roundtrip RB DB docMarks (by decide)
+example : String.ofList (Dom.renderAll (serializeDoc SB DB docMarks)) =
+    "<p><em>a </em><strong>b</strong> <em><strong>c d</strong></em></p><pre><code>x\n  y\n</code></pre>" := by decide
+-- a document that is NOT whitespace-normal (a paragraph ending in a space) does not satisfy the hypothesis
+example : rtOk RB DB (.elem 0 [] [] [.elem 1 [] [] [.text [97, 32] []]]) = false := by decide
 end RoundTripExamples
 
 end PM.C19
